@@ -909,8 +909,13 @@ func callBuiltin(i *interpreter, caller *frame, fn *ssa.Builtin, args []value) v
 			}
 			return arg0
 		}
-		// append([]T, ...[]T) []T
-		return append(args[0].([]value), args[1].([]value)...)
+		// append([]T, ...[]T) []T  (elements are copied by value)
+		src := args[1].([]value)
+		dst := args[0].([]value)
+		for _, e := range src {
+			dst = append(dst, copyVal(e))
+		}
+		return dst
 
 	case "copy": // copy([]T, []T) int or copy([]byte, string) int
 		src := args[1]
@@ -921,7 +926,18 @@ func callBuiltin(i *interpreter, caller *frame, fn *ssa.Builtin, args []value) v
 			params := fn.Type().(*types.Signature).Params()
 			src = i.conv(params.At(0).Type(), params.At(1).Type(), src)
 		}
-		return copy(args[0].([]value), src.([]value))
+		d, sv := args[0].([]value), src.([]value)
+		n := len(d)
+		if len(sv) < n {
+			n = len(sv)
+		}
+		// element-wise value copy; handle overlap like the built-in
+		tmp := make([]value, n)
+		for k := 0; k < n; k++ {
+			tmp[k] = copyVal(sv[k])
+		}
+		copy(d, tmp)
+		return n
 
 	case "close": // close(chan T)
 		i.sched.closeChan(asChan(args[0]))
